@@ -129,6 +129,120 @@ def rule_shape_blocks(level=1):
     return res
 
 
+# ---------------------------------------------------------------------------------------------------------------------
+# rule patterns that span two instructions, with the inner result shared.  A term is ('in', i) | ('c', hex) | (OP, arg...),
+# arguments in stack order (first = top of the stack when OP executes).
+def compile_terms(outputs, n_inputs):
+    """straight-line code that leaves the values of `outputs` (a permutation of them) on top of the n_inputs stack elements it
+    starts from; a term that is already somewhere on the stack is copied with DUP, never recomputed, so a sub-term used twice
+    has two consumers; intermediate copies that are not outputs are removed again (SWAPk POP)"""
+    stack = [('in', i) for i in range(n_inputs)]          # top first
+    code = []
+
+    def fetch(t):
+        if t in stack and stack.index(t) < 16:
+            code.append("DUP%d" % (stack.index(t) + 1))
+        elif t[0] == 'c':
+            code.append("PUSH " + t[1])
+        elif t[0] == 'in':
+            raise ValueError("input too deep")
+        else:
+            for a in reversed(t[1:]):
+                fetch(a)
+            code.append(t[0])
+            del stack[:len(t) - 1]
+        stack.insert(0, t)
+    # sub-terms shared between outputs are computed first so that every use is a DUP of one instruction
+    def subterms(t, acc):
+        if t[0] not in ('in', 'c'):
+            for a in t[1:]:
+                subterms(a, acc)
+            acc.append(t)
+    seen = []
+    for o in outputs:
+        subterms(o, seen)
+    for t in seen:
+        if seen.count(t) > 1 and t not in stack:
+            fetch(t)
+    for o in reversed(outputs):
+        fetch(o)
+    m = len(outputs)
+    # whatever lies between the outputs and the inputs is an intermediate copy: drop it
+    while len(stack) > m + n_inputs:
+        if m > 16:
+            raise ValueError("too many outputs")
+        code.append("SWAP%d" % m)
+        code.append("POP")
+        junk = stack[m]
+        stack[m] = stack[0]
+        del stack[0]
+        assert junk is not None
+    return " ".join(code)
+
+
+def shared_rule_shape_blocks():
+    """every two-instruction pattern of the context rules with: only the outer result / the outer and the inner result / the outer
+    result and another consumer of the inner one (seed C03-6: a rule that rewrites an instruction another one still reads)"""
+    x, y, z, w = ('in', 0), ('in', 1), ('in', 2), ('in', 3)
+    c = lambda h: ('c', h)
+    A160 = c("ffffffffffffffffffffffffffffffffffffffff")
+    pats = []            # (outer, [inner terms whose sharing matters])
+    shl1 = lambda s: ("SHL", s, c("1"))
+    for outer in ("MUL", "DIV"):
+        pats += [((outer, x, shl1(y)), [shl1(y)]), ((outer, shl1(y), x), [shl1(y)])]
+    pats += [(("AND", ("SHL", x, y), ("SHL", x, z)), [("SHL", x, y), ("SHL", x, z)]),
+             (("AND", ("SHL", x, y), ("SHL", w, z)), [("SHL", x, y)]),
+             (("OR", ("SHL", x, y), ("SHL", x, z)), [("SHL", x, y)]),
+             (("BALANCE", ("ADDRESS",)), [("ADDRESS",)]), (("AND", ("ADDRESS",), A160), [("ADDRESS",)]), (("AND", A160, ("CALLER",)), [("CALLER",)]),
+             (("AND", ("ORIGIN",), A160), [("ORIGIN",)]),
+             (("ISZERO", ("ISZERO", x)), [("ISZERO", x)]), (("ISZERO", ("ISZERO", ("ISZERO", x))), [("ISZERO", x), ("ISZERO", ("ISZERO", x))]),
+             (("NOT", ("NOT", x)), [("NOT", x)]), (("SUB", c("0"), ("SUB", c("0"), x)), [("SUB", c("0"), x)])]
+    for cmp_ in ("LT", "GT", "SLT", "SGT", "EQ", "SUB", "XOR"):
+        pats.append((("ISZERO", (cmp_, x, y)), [(cmp_, x, y)]))
+    for cmp_ in ("LT", "GT", "EQ"):
+        pats += [(("ISZERO", (cmp_, x, c("0"))), [(cmp_, x, c("0"))]), (("ISZERO", (cmp_, c("0"), x)), [(cmp_, c("0"), x)]),
+                 (("ISZERO", (cmp_, x, c("1"))), [(cmp_, x, c("1"))]), (("ISZERO", (cmp_, c("1"), x)), [(cmp_, c("1"), x)])]
+    pats += [(("EQ", ("ISZERO", x), c("0")), [("ISZERO", x)]), (("EQ", c("1"), ("ISZERO", x)), [("ISZERO", x)]),
+             (("EQ", c("1"), ("LT", x, y)), [("LT", x, y)]), (("EQ", ("GT", x, y), c("0")), [("GT", x, y)]),
+             (("AND", x, ("AND", x, y)), [("AND", x, y)]), (("AND", ("AND", x, y), y), [("AND", x, y)]), (("OR", x, ("OR", x, y)), [("OR", x, y)]),
+             (("OR", ("AND", x, y), x), [("AND", x, y)]), (("AND", ("OR", x, y), x), [("OR", x, y)]), (("AND", c("ff"), ("AND", c("ffff"), x)), [("AND", c("ffff"), x)]),
+             (("SUB", ("ADD", x, c("1")), c("1")), [("ADD", x, c("1"))]), (("ADD", ("SUB", x, c("1")), c("1")), [("SUB", x, c("1"))]),
+             (("ADD", c("2"), ("ADD", c("3"), x)), [("ADD", c("3"), x)]), (("MUL", c("2"), ("MUL", c("3"), x)), [("MUL", c("3"), x)]),
+             (("SHR", c("8"), ("SHL", c("8"), x)), [("SHL", c("8"), x)]), (("SHL", c("8"), ("SHR", c("8"), x)), [("SHR", c("8"), x)]),
+             (("SHL", c("4"), ("SHL", c("8"), x)), [("SHL", c("8"), x)]), (("SHR", c("4"), ("SHR", c("8"), x)), [("SHR", c("8"), x)]),
+             (("AND", c("ff"), ("SHR", c("f8"), x)), [("SHR", c("f8"), x)]), (("EXP", c("2"), ("ADD", x, y)), [("ADD", x, y)]),
+             (("MUL", ("EXP", c("2"), x), y), [("EXP", c("2"), x)]), (("DIV", y, ("EXP", c("2"), x)), [("EXP", c("2"), x)]),
+             (("ISZERO", ("ISZERO", ("LT", x, y))), [("ISZERO", ("LT", x, y)), ("LT", x, y)]),
+             (("ISZERO", ("ISZERO", ("EQ", x, y))), [("ISZERO", ("EQ", x, y))])]
+    out = []
+    for outer, inners in pats:
+        n_in = 1 + max([t[1] for t in _leaves(outer) if t[0] == 'in'] + [-1])
+        variants = [[outer]]
+        for inner in inners:
+            variants += [[outer, inner], [inner, outer], [outer, ("ADD", inner, ('in', 0) if n_in else c("5"))], [outer, ("ISZERO", inner)],
+                         [("ADD", outer, inner)]]
+        for outs in variants:
+            try:
+                out.append(compile_terms(outs, max(n_in, 1)))
+            except ValueError:
+                pass
+    seen, res = set(), []
+    for b in out:
+        if b not in seen:
+            seen.add(b)
+            res.append(b)
+    return res
+
+
+def _leaves(t):
+    if t[0] in ('in', 'c'):
+        return [t]
+    r = []
+    for a in t[1:]:
+        r += _leaves(a)
+    return r
+
+
 def random_blocks(n, seed=1, maxlen=22, profile='mixed'):
     """deterministic pseudo-random blocks over a vocabulary that mixes arithmetic, stack shuffles, constants that are memory
     offsets / storage keys near each other (aliasing), loads, stores, hashes, environment reads and a few instructions at which
